@@ -463,7 +463,60 @@ def operator_messages(seed, n):
         if msg.find(b'BUFR', 1) >= 0:
             continue
         out.append({'ref': 'synop:%d:%d' % (seed, i), 'hex': msg.hex(), 'src': 'operator', 'opkind': spec['opkind']})
+    # compressed / multi-subset variants of the same programs: produced by the library's own
+    # (interpreting) encoder from the decoded values, in a pristine child each; they carry no ground
+    # truth and serve the differential oracles only (history vs fresh, compiled vs interpreted)
+    base = [e for k, e in enumerate(out) if k % 2 == 0]
+    res = core.pmap('compress_variant', [{'hex': e['hex'], 'seed': seed + k} for k, e in enumerate(base)], limit=120)
+    for e, (st, r) in zip(base, res):
+        if st == 'ok' and r:
+            raw = bytes.fromhex(r['hex'])
+            if raw.find(b'BUFR', 1) < 0 and len(raw) <= MAX_MSG:
+                out.append({'ref': e['ref'] + ':c%d' % r['nsub'], 'hex': r['hex'], 'src': 'operator',
+                            'opkind': e['opkind'] + '-compressed'})
     return out
+
+
+def _compress_variant(arg):
+    from pybufrkit.decoder import Decoder
+    from pybufrkit.encoder import Encoder
+    from pybufrkit.renderer import FlatJsonRenderer
+    from pybufrkit.descriptors import ElementDescriptor
+    from sim.observe import quiet_std
+    quiet_std()
+    rng = random.Random(arg['seed'])
+    try:
+        m = Decoder().process(bytes.fromhex(arg['hex']), wire_template_data=False)
+    except Exception:
+        return None
+    data = FlatJsonRenderer().render(m)
+    vals = data[-2][2][0]
+    ds = m.template_data.value.decoded_descriptors_all_subsets[0]
+    nsub = rng.choice([1, 2, 2, 3])
+    for attempt in (0, 1):
+        subsets = [list(vals)]
+        for _ in range(nsub - 1):
+            v2 = list(vals)
+            if attempt == 0:
+                for k, (d, v) in enumerate(zip(ds, vals)):
+                    if type(d) is ElementDescriptor and d.X not in (31, 33) and d.X > 9 and d.nbits > 1 and \
+                            isinstance(v, (int, float)) and 'TABLE' not in d.unit and rng.random() < 0.3:
+                        v2[k] = None
+            subsets.append(v2)
+        data[-3][2] = nsub
+        data[-3][4] = True
+        data[-2][2] = subsets
+        try:
+            out = Encoder().process(data, wire_template_data=False)
+            raw = bytes(out.serialized_bytes)
+            Decoder().process(raw)
+            return {'hex': raw.hex(), 'nsub': nsub}
+        except Exception:
+            continue
+    return None
+
+
+core.register('compress_variant', _compress_variant)
 
 
 _TWINS = []
